@@ -81,14 +81,26 @@ Definition ev_code (e : ev) : nat :=
 Fixpoint nats_eqb (a b : list nat) : bool :=
   match a, b with [] , [] => true | x :: a', y :: b' => Nat.eqb x y && nats_eqb a' b' | _, _ => false end.
 
-(* one correspondence case: 0 = agrees; 1 = value differs; 2 = dispatch events differ; 3 = the model has no
-   value where Lcapy returned one; 4 = value agrees only... (unused) *)
+(* one correspondence case.  want = what Lcapy returned at s0.
+     5 = Lcapy differs from the SPECIFICATION (the model run with the hand-written specification forms): a failing input
+     1 = Lcapy agrees with the specification but differs from the model with the translated forms
+     2 = values agree, dispatch events differ     3 = the model has no value where Lcapy returned one     0 = agrees *)
+Definition xspec (D : positive) : forms QcIF := spec_forms QcIF (xex D) (xsn D) (xcs D) xneg xFn xIc.
+(* the lower limit 0 or 0- only matters when an impulse sits at the origin: otherwise integrate_0 and integrate_0minus
+   are the same branch for the comparison of dispatch events *)
+Definition relax (strict : bool) (l : list nat) : list nat :=
+  if strict then l else map (fun c => if Nat.eqb c 9 then 8%nat else c) l.
 Definition run_case (F : forms QcIF) (D : positive) (zic : bool) (e : tx QcIF) (s0 : qci)
-                    (want : qci) (evs : list nat) (check_events : bool) : nat :=
+                    (want : qci) (evs : list nat) (check_events strict : bool) : nat :=
+  let spec_bad := match doit QcIF (xex D) cii is_real xneg (xspec D) (xorc D) zic e with
+                  | (Some Y, _) => negb (qci_eqb (Y s0) want)
+                  | (None, _) => false
+                  end in
+  if spec_bad then 5%nat else
   match doit QcIF (xex D) cii is_real xneg F (xorc D) zic e with
   | (Some X, mevs) =>
       if qci_eqb (X s0) want then
-        (if check_events then (if nats_eqb (map ev_code mevs) evs then 0 else 2) else 0)%nat
+        (if check_events then (if nats_eqb (relax strict (map ev_code mevs)) (relax strict evs) then 0 else 2) else 0)%nat
       else 1%nat
   | (None, _) => 3%nat
   end.
